@@ -66,6 +66,9 @@ type Subscription struct {
 type reference struct {
 	sub   *Subscription
 	count int
+	// pending is true while the referenced resource is being loaded after an
+	// event added the reference, and it is not yet counted as indirectly sent.
+	pending bool
 }
 
 type readyCallback struct {
@@ -516,7 +519,7 @@ func containsString(path []string, rid string) bool {
 
 func (s *Subscription) unsubscribeRefs(sent bool) {
 	for _, ref := range s.refs {
-		s.c.Unsubscribe(ref.sub, false, sent, 1, false)
+		s.c.Unsubscribe(ref.sub, false, sent && !ref.pending, 1, false)
 	}
 	s.refs = nil
 }
@@ -642,6 +645,8 @@ func (s *Subscription) processCollectionEvent(event *rescache.ResourceEvent) {
 
 			// Start queueing again
 			s.queueEvents(queueReasonLoading)
+			ref := s.refs[rid]
+			ref.pending = true
 
 			sub.OnReady(func() {
 				// Assert client is still subscribing
@@ -650,6 +655,7 @@ func (s *Subscription) processCollectionEvent(event *rescache.ResourceEvent) {
 					return
 				}
 
+				ref.pending = false
 				r := sub.GetRPCResources(true)
 				s.c.Send(rpc.NewEvent(s.rid, event.Event, rpc.AddEvent{Idx: idx, Value: v.RawMessage, Resources: r}))
 				sub.ReleaseRPCResources()
@@ -745,6 +751,9 @@ func (s *Subscription) processModelEvent(event *rescache.ResourceEvent) {
 		s.queueEvents(queueReasonLoading)
 		count := len(subs)
 		for _, sub := range subs {
+			s.refs[sub.rid].pending = true
+		}
+		for _, sub := range subs {
 			sub.OnReady(func() {
 				// Assert client is not disposed
 				if s.state == stateDisposed {
@@ -756,6 +765,9 @@ func (s *Subscription) processModelEvent(event *rescache.ResourceEvent) {
 					return
 				}
 
+				for _, sub := range subs {
+					s.refs[sub.rid].pending = false
+				}
 				r := &rpc.Resources{}
 
 				// Legacy behavior
